@@ -20,7 +20,16 @@ RULE = (
     "pipelines: (a) every listed transformer x target matrix/weights/both x parameter setting alone (SumScaler, VectorScaler, MaxAbsScaler, "
     "InvertMinimize on positive data; MinMaxScaler x 8 ranges x clip, StandarScaler x with_mean x with_std, PushNegatives, AddValueToZero "
     "x 7 values, NegateMinimize on any data), (b) random SEQUENCES of 1..5 of them, each step drawn among those whose domain holds at that "
-    "point (sign state of matrix and weights tracked through the steps). Thorough adds (c) the exhaustive set: every matrix of shape "
+    "point (sign state of matrix and weights tracked through the steps); one sequence in three is CHAINED: the data starts outside the "
+    "positive domain, a prefix establishes it (MinMaxScaler onto a positive range / PushNegatives then AddValueToZero(value > 0)) and the "
+    "positive-data transformers are favoured afterwards. HOW the steps are run is drawn per case: by hand, one fresh transformer after "
+    "the other (2/5); mkpipe(...).transform (1/10); the public constructor SKCPipeline(steps=[(name, step), ..., (name, decision "
+    "maker)]).transform with user-given names, all different (3/20) or REPEATED (7/20: at least two transformer steps share a name, "
+    "at times the decision maker too) - the output of a pipeline object is also compared (equality) with its steps applied by hand. "
+    "One case in two carries a SECOND decision matrix that goes through the SAME transformer objects / pipeline object after the first: "
+    "identical criteria labels and dtypes, objectives flipped on a random non-empty subset of the criteria, the same cells (1/3, "
+    "dm.copy(objectives=...)) or other cells, weights and alternatives (2/3), inside the sign domain of the pipeline as well; each "
+    "output is judged against its own input. Thorough adds (c) the exhaustive set: every matrix of shape "
     "<= 3 x 2 over {-1,0,1,2} ({1,2} for the positive-data transformers) x every objective vector x every transformer, and again "
     "with ALL criteria int64 (and, two criteria, int64 next to float64): {1,2,3} for the positive-data transformers up to 3 x 2, "
     "{-1,0,1,2} up to 4 cells. "
@@ -190,32 +199,125 @@ def base_dm(rng, positive, wpositive=True):
             "dtypes": dtypes}
 
 
+def domain_ok(pipe, dm):
+    """every step of the pipeline is inside its sign domain on this decision matrix (abstract sign states, as in sequence_case)"""
+    mst = state_of([v for r in dm["matrix"] for v in r])
+    wst = state_of(dm["weights"])
+    objs = list(dm["objectives"])
+    for st in pipe:
+        if st["target"] not in allowed_targets(st["name"], mst, wst):
+            return False
+        mst, wst, objs = advance(st, mst, wst, objs)
+    return True
+
+
+def second_dm(rng, dm, pipe, positive, wpositive):
+    """a SECOND decision matrix for the same transformer objects: identical criteria labels (and dtypes), an objective vector that
+    differs from the first one on at least one criterion, and 1/3 the same cells (dm.copy(objectives=...)) / 2/3 other cells, weights
+    and alternatives; inside the sign domain of the pipeline as well.  None if no such matrix was drawn."""
+    n = len(dm["objectives"])
+    for _ in range(40):
+        flip = set(rng.sample(range(n), rng.randint(1, n)))
+        objs = [-o if j in flip else o for j, o in enumerate(dm["objectives"])]
+        if rng.random() < 1 / 3:
+            d2 = dict(dm, objectives=objs, matrix=[list(r) for r in dm["matrix"]], weights=list(dm["weights"]))
+        else:
+            same_alts = rng.random() < 0.5
+            m = len(dm["matrix"]) if same_alts else rng.randint(2, 8)
+            family = dm["family"]
+            if wpositive or n < 2:
+                w = G.weights(rng, n, family)
+            else:
+                w = c11.vec(rng, n, family, rng.choice(["mixed", "zero", "minzero"]))
+            A = whole(matrix(rng, m, n, family, positive, objs), dm["dtypes"], positive)
+            d2 = dict(dm, matrix=A, objectives=objs, weights=w,
+                      alternatives=list(dm["alternatives"]) if same_alts else G.labels(rng, G.LABEL_POOL_ALT, m))
+        if domain_ok(pipe, d2):
+            return d2
+    return None
+
+
+NAME_POOL = ["scale", "invert", "step", "t", "norm", "a", "b", "pre", "x", "scaler"]
+
+
+def step_names(rng, k):
+    """how the pipeline OBJECT of a case is built: None = steps applied by hand, one fresh transformer after the other (no pipeline
+    object); "mkpipe" = skcriteria.pipeline.mkpipe (generated unique names); a list of k + 1 user-given names (k transformers and the
+    closing decision maker) = the public constructor SKCPipeline(steps=[(name, step), ...]) - all different, or with REPEATED names:
+    two or more steps (transformers, at times the decision maker too) share one name"""
+    r = rng.random()
+    if r < 0.4:
+        return None
+    if r < 0.5:
+        return "mkpipe"
+    if r < 0.65 or k < 1:
+        return rng.sample(NAME_POOL, k + 1)
+    pool = rng.sample(NAME_POOL, rng.randint(1, max(1, (k + 1) // 2)))
+    names = [rng.choice(pool) for _ in range(k + 1)]
+    if k >= 2:  # at least two TRANSFORMER steps share a name
+        i, j = rng.sample(range(k), 2)
+        names[j] = names[i]
+        if rng.random() < 0.7:  # ... and usually the decision maker has a name of its own
+            names[k] = rng.choice([x for x in NAME_POOL if x not in names[:k]])
+    else:
+        names[k] = names[0]
+    return names
+
+
+def finish(rng, kind, dm, steps, positive, wpositive):
+    case = {"kind": kind, "dm": dm, "pipelines": [steps], "names": [step_names(rng, len(steps))]}
+    if rng.random() < 0.5:
+        d2 = second_dm(rng, dm, steps, positive, wpositive)
+        if d2 is not None:
+            case["second"] = d2
+    return case
+
+
 def single_case(rng, cfg):
     step = concrete(rng, cfg)
     needs_pos = step["name"] in POS_ONLY or step["name"] == "InvertMinimize"
-    dm = base_dm(rng, positive=needs_pos or rng.random() < 0.3, wpositive=needs_pos or rng.random() < 0.6)
-    return {"kind": "single", "dm": dm, "pipelines": [[step]]}
+    positive, wpositive = needs_pos or rng.random() < 0.3, needs_pos or rng.random() < 0.6
+    dm = base_dm(rng, positive=positive, wpositive=wpositive)
+    return finish(rng, "single", dm, [step], positive, wpositive)
 
 
-def sequence_case(rng, by_name):
+def sequence_case(rng, by_name, chained=False):
+    """chained: the data starts OUTSIDE the positive domain and a prefix of the sequence establishes it (MinMaxScaler onto a positive
+    range, or PushNegatives then AddValueToZero with a positive value); the steps that follow are drawn with the positive-data
+    transformers (InvertMinimize, SumScaler, VectorScaler, MaxAbsScaler) favoured: their domain holds only because of the earlier steps"""
     names = sorted(by_name)
-    dm = base_dm(rng, positive=rng.random() < 0.5, wpositive=rng.random() < 0.7)
+    positive, wpositive = (False, rng.random() < 0.7) if chained else (rng.random() < 0.5, rng.random() < 0.7)
+    dm = base_dm(rng, positive=positive, wpositive=wpositive)
     mst = state_of([v for r in dm["matrix"] for v in r])
     wst = state_of(dm["weights"])
     objs = list(dm["objectives"])
     steps = []
-    for _ in range(rng.randint(1, 5)):
+
+    def push(st):
+        nonlocal mst, wst, objs
+        steps.append(st)
+        mst, wst, objs = advance(st, mst, wst, objs)
+
+    if chained:
+        t = rng.choice(["matrix", "matrix", "both"])
+        if rng.random() < 0.7:
+            lo = rng.randint(1, 24) / 8
+            push({"name": "MinMaxScaler", "target": t, "params": {"lo": lo, "hi": lo + rng.randint(1, 32) / 8, "clip": rng.random() < 0.5}})
+        else:
+            push({"name": "PushNegatives", "target": t, "params": {}})
+            push({"name": "AddValueToZero", "target": t, "params": {"value": rng.choice([1.0, 0.5, 0.125, 3.75])}})
+    pos_names = [x for x in names if x in POS_ONLY or x == "InvertMinimize"]
+    for _ in range(rng.randint(2, 4) if chained else rng.randint(1, 5)):
         for _try in range(50):
-            name, target, params = cfg = rng.choice(by_name[rng.choice(names)])
+            pick = rng.choice(pos_names) if chained and rng.random() < 0.6 else rng.choice(names)
+            name, target, params = cfg = rng.choice(by_name[pick])
             ok = allowed_targets(name, mst, wst)
             if target in ok:
                 break
         else:
             break
-        st = concrete(rng, cfg)
-        steps.append(st)
-        mst, wst, objs = advance(st, mst, wst, objs)
-    return {"kind": "seq", "dm": dm, "pipelines": [steps]}
+        push(concrete(rng, cfg))
+    return finish(rng, "chain" if chained else "seq", dm, steps, positive, wpositive)
 
 
 EXH_ANY = [
@@ -279,8 +381,8 @@ def gen(ctx):
     for i in range(ctx.n(180, 3000)):
         lst = by_name[names[i % len(names)]]
         cases.append(single_case(rng, lst[(i // len(names)) % len(lst)]))
-    for _ in range(ctx.n(180, 3000)):
-        cases.append(sequence_case(rng, by_name))
+    for i in range(ctx.n(210, 3600)):
+        cases.append(sequence_case(rng, by_name, chained=i % 3 == 2))
     if ctx.thorough:
         cases += exhaustive_cases()
     return cases
@@ -303,21 +405,68 @@ def _tables(dm):
     return [dm.dominance.dominance(strict=s).to_numpy().astype(bool).tolist() for s in (False, True)]
 
 
+def case_dms(case):
+    """the decision matrices of a case, in the order in which the SAME transformer objects see them"""
+    return [case["dm"]] + ([case["second"]] if case.get("second") else [])
+
+
+def make_pipeline(pipe, names):
+    """the pipeline OBJECT of a case (see step_names); the closing decision maker is never evaluated"""
+    from skcriteria.agg.simple import WeightedSumModel
+    from skcriteria.pipeline import SKCPipeline, mkpipe
+
+    objs = [build(step) for step in pipe] + [WeightedSumModel()]
+    if names == "mkpipe":
+        return mkpipe(*objs)
+    return SKCPipeline(steps=list(zip(names, objs)))
+
+
+def _run(cur):
+    mat = np.asarray(cur.matrix.to_numpy(), dtype=float)
+    w = np.asarray(cur.weights.to_numpy(), dtype=float)
+    return {"matrix": mat.tolist(), "weights": w.tolist(), "objectives": [int(x) for x in cur.iobjectives.to_numpy()],
+            "finite": bool(np.all(np.isfinite(mat))), "after": _tables(cur)}
+
+
 def observe(case):
+    """runs: for every pipeline, for every decision matrix of the case (the second one goes through the SAME objects as the first),
+    the output of the pipeline.  Built as an object (SKCPipeline / mkpipe): `by_hand` is the output of the same steps applied one
+    after the other with fresh transformers to that matrix alone"""
     with M.quiet():
-        dm = c11.mkdm(case["dm"])
-        out = {"before": _tables(dm), "runs": []}
-        for pipe in case["pipelines"]:
+        dms = [c11.mkdm(d) for d in case_dms(case)]
+        out = {"before": _tables(dms[0]), "before_all": [_tables(d) for d in dms], "runs": []}
+        for k, pipe in enumerate(case["pipelines"]):
+            names = (case.get("names") or [None] * len(case["pipelines"]))[k]
             try:
-                cur = dm
-                for step in pipe:
-                    cur = build(step).transform(cur)
-                mat = np.asarray(cur.matrix.to_numpy(), dtype=float)
-                run = {"matrix": mat.tolist(), "objectives": [int(x) for x in cur.iobjectives.to_numpy()],
-                       "finite": bool(np.all(np.isfinite(mat))), "after": _tables(cur)}
+                obj = make_pipeline(pipe, names) if names is not None else [build(step) for step in pipe]
+                broken = None
             except Exception as e:
-                run = {"err": G.err_name(e), "msg": str(e)[:200]}
-            out["runs"].append(run)
+                broken = {"err": G.err_name(e), "msg": "building the pipeline: " + str(e)[:200]}
+            for which, dm in enumerate(dms):
+                if broken:
+                    out["runs"].append(dict(broken, pipe=k, which=which))
+                    continue
+                try:
+                    if names is not None:
+                        cur = obj.transform(dm)
+                    else:
+                        cur = dm
+                        for T in obj:
+                            cur = T.transform(cur)
+                    run = _run(cur)
+                except Exception as e:
+                    run = {"err": G.err_name(e), "msg": str(e)[:200]}
+                if names is not None:
+                    try:
+                        cur = dm
+                        for step in pipe:
+                            cur = build(step).transform(cur)
+                        ref = _run(cur)
+                        run["by_hand"] = {x: ref[x] for x in ("matrix", "weights", "objectives")}
+                    except Exception as e:
+                        run["by_hand"] = {"err": G.err_name(e), "msg": str(e)[:200]}
+                run["pipe"], run["which"] = k, which
+                out["runs"].append(run)
         return out
 
 
@@ -326,15 +475,15 @@ def pipe_domain(pipe):
 
 
 def requests(case, obs):
-    dm = case["dm"]
     reqs = []
     for pipe in case["pipelines"]:
         domain = pipe_domain(pipe)
         enc = C.fbits if domain == "float" else C.rat
-        reqs.append({"op": "tr", "domain": domain, "M": [[enc(x) for x in row] for row in dm["matrix"]],
-                     "O": ["max" if o == 1 else "min" for o in dm["objectives"]], "w": [enc(x) for x in dm["weights"]],
-                     "steps": [c11.tr_step(s["name"], s["target"], s["params"], enc) for s in pipe],
-                     "dom": [{"m": "dominance", "strict": False}, {"m": "dominance", "strict": True}]})
+        for dm in case_dms(case):  # same order as obs["runs"]
+            reqs.append({"op": "tr", "domain": domain, "M": [[enc(x) for x in row] for row in dm["matrix"]],
+                         "O": ["max" if o == 1 else "min" for o in dm["objectives"]], "w": [enc(x) for x in dm["weights"]],
+                         "steps": [c11.tr_step(s["name"], s["target"], s["params"], enc) for s in pipe],
+                         "dom": [{"m": "dominance", "strict": False}, {"m": "dominance", "strict": True}]})
     return reqs
 
 
@@ -366,16 +515,21 @@ def compare_signs(A, o, Y, o2):
     return rev, born, merged
 
 
-def describe(pipe):
-    return " -> ".join(f"{s['name']}({s['target']}{', ' + str(s['params']) if s['params'] else ''})" for s in pipe)
+def describe(pipe, names=None):
+    d = " -> ".join(f"{s['name']}({s['target']}{', ' + str(s['params']) if s['params'] else ''})" for s in pipe)
+    if names == "mkpipe":
+        return "mkpipe[" + d + "]"
+    if names is not None:
+        return f"SKCPipeline(names={names})[" + d + "]"
+    return d
 
 
 def judge(case, obs, replies):
     out = []
-    dm = case["dm"]
-    A, o = dm["matrix"], dm["objectives"]
-    m = len(A)
-    exact_family = dm["family"] == "dyadic"
+    dms = case_dms(case)
+    exact_family = case["dm"]["family"] == "dyadic"
+    all_names = case.get("names") or [None] * len(case["pipelines"])
+    before_all = obs.get("before_all") or [obs["before"]]
 
     def prop(what, expected=None, observed=None):
         out.append({"kind": "property", "what": what, "expected": expected, "observed": observed})
@@ -383,8 +537,14 @@ def judge(case, obs, replies):
     def corr(what, expected=None, observed=None):
         out.append({"kind": "correspondence", "what": what, "expected": expected, "observed": observed})
 
-    for pipe, run, rep in zip(case["pipelines"], obs["runs"], replies):
-        label = describe(pipe)
+    for run, rep in zip(obs["runs"], replies):
+        pipe, names, which = case["pipelines"][run.get("pipe", 0)], all_names[run.get("pipe", 0)], run.get("which", 0)
+        # every output is judged against ITS OWN input
+        A, o = dms[which]["matrix"], dms[which]["objectives"]
+        m = len(A)
+        label = describe(pipe, names)
+        if which:
+            label += " [second decision matrix through the same transformer objects: same criteria labels, other objectives]"
         if "err" in run:
             prop(f"{label}: raised {run['err']} inside its domain: {run.get('msg')}", "a transformed matrix", run["err"])
             continue
@@ -408,7 +568,7 @@ def judge(case, obs, replies):
                  {"criterion": j, "pair": [a, b], "before": [A[a][j], A[b][j]]}, {"after": [Y[a][j], Y[b][j]]})
         skip = {(a, b) for _, a, b in merged} | {(b, a) for _, a, b in merged}
         for k, strict in enumerate((False, True)):
-            before, after = obs["before"][k], run["after"][k]
+            before, after = before_all[which][k], run["after"][k]
             diff = [(a, b) for a in range(m) for b in range(m) if before[a][b] != after[a][b] and (a, b) not in skip]
             if diff:
                 a, b = diff[0]
@@ -416,6 +576,17 @@ def judge(case, obs, replies):
                      {"pair": [a, b], "before": before[a][b], "rows_before": [A[a], A[b]], "objectives_before": o},
                      {"after": after[a][b], "rows_after": [Y[a], Y[b]], "objectives_after": o2})
                 break
+        # a pipeline object is its steps applied in order (what the model computes as well): same floating-point operations, so the
+        # two outputs are compared for equality
+        ref = run.get("by_hand")
+        if ref is not None:
+            if "err" in ref:
+                corr(f"{label}: the steps applied by hand raise {ref['err']}, the pipeline object answers", ref["err"], "a transformed matrix")
+            else:
+                for part in ("matrix", "weights", "objectives"):
+                    if ref[part] != run[part]:
+                        corr(f"{label}: {part} out of the pipeline object differs from the steps applied one after the other", ref[part], run[part])
+                        break
         # correspondence: model of the pipeline, then the model of the dominance accessor
         if "err" in rep:
             corr(f"{label}: model refuses, implementation accepts", rep["err"], "accepted")
@@ -448,13 +619,23 @@ def tags(case, obs):
     o = dm["objectives"]
     t.append("objs:" + ("max" if all(x == 1 for x in o) else "min" if all(x == -1 for x in o) else "mixed"))
     if case["kind"] != "exh":
-        t.append("len=%d" % len(case["pipelines"][0]))
+        names = (case.get("names") or [None])[0]
+        k = len(case["pipelines"][0])
+        t.append("built:" + ("by-hand" if names is None else "mkpipe" if names == "mkpipe" else
+                             "SKCPipeline-unique-names" if len(set(names)) == len(names) else
+                             "SKCPipeline-repeated-transformer-name" if len(set(names[:k])) < k else "SKCPipeline-repeated-name"))
+        t.append("matrices-per-object=%d" % len(case_dms(case)))
+        if case.get("second"):
+            t.append("second:" + ("same-cells" if case["second"]["matrix"] == dm["matrix"] else "other-cells"))
+        t.append("len=%d" % k)
         for s in case["pipelines"][0]:
             t.append("step:" + s["name"])
             t.append("target:" + s["target"])
+        dms = case_dms(case)
         for run in obs.get("runs", []):
             if "matrix" in run and run.get("finite"):
-                rev, born, merged = compare_signs(dm["matrix"], o, run["matrix"], run["objectives"])
+                d = dms[run.get("which", 0)]
+                rev, born, merged = compare_signs(d["matrix"], d["objectives"], run["matrix"], run["objectives"])
                 if merged:
                     t.append("merged-by-rounding")
         if any(any(r) for r in obs["before"][0]):
